@@ -11,7 +11,7 @@
    for it (observed + min(NS TTL, DS TTL), limited by every shallower cut on the path);
    [l_spec l] is the lease the property grants: [l_code l] further limited by
    observed + 12 h (for the code as it is the two coincide: [code_lease_is_granted_lease]). *)
-From Sdns Require Import Common.Base Gen.C08 C08.Model C08.Proofs_base C08.Proofs_inv C08.Proofs_thm.
+From Sdns Require Import Common.Base Gen.C08 C08.Model C08.Proofs_base C08.Proofs_inv C08.Proofs_thm C08.Proofs_chase.
 Open Scope Z_scope.
 
 (* ---- translator ties *)
@@ -66,6 +66,25 @@ Theorem fold_back_is_model : forall (kf : zone -> N) p c cp cc,
   meta_rep kf (go_ResponseMeta_BoundCutFor p (fst (go_ResponseMeta_Cut c)) (snd (go_ResponseMeta_Cut c))) (bound_cut cp cc).
 Proof. exact gen_fold_back. Qed.
 Print Assumptions fold_back_is_model.
+
+(* cache.subQueryLineage.inherit itself (the cache layer's fold: every chased alias target), translated from the
+   source on every run for non-nil metas: the first call leaves in the parent sink the model's fold of the two cuts and
+   marks the lineage; the child is untouched; every later call is the identity (the idempotence the merge and the
+   NXDOMAIN / NODATA branches rely on when both run) *)
+Theorem lineage_inherit_is_model : forall (kf : zone -> N) l cp cc,
+  nz (cut_time cp) -> nz (cut_time cc) ->
+  meta_rep kf (T_subQueryLineage_parent l) cp -> meta_rep kf (T_subQueryLineage_child l) cc ->
+  let l' := go_subQueryLineage_inherit l in
+  T_subQueryLineage_inherited l' = true /\ T_subQueryLineage_child l' = T_subQueryLineage_child l /\
+  meta_rep kf (T_subQueryLineage_parent l') (if T_subQueryLineage_inherited l then cp else bound_cut cp cc) /\
+  go_subQueryLineage_inherit l' = l'.
+Proof. exact gen_lineage_inherit. Qed.
+Print Assumptions lineage_inherit_is_model.
+
+(* the alias chase issues at most cnameDepth = 10 sub-queries per level, nested at most maxCnameChaseDepth = 10 deep *)
+Theorem chase_depth_is_10 : cname_chase_depth = 10 /\ max_cname_chase_depth = 10.
+Proof. exact gen_chase_depth. Qed.
+Print Assumptions chase_depth_is_10.
 
 (* cache.CacheEntry.remaining (the one place that decides how long a stored answer is served), translated
    from the source on every run, is the model's: TTL minus age, cut short by the inherited cut *)
@@ -257,6 +276,49 @@ Theorem composed_answer_inherits_target_leg : forall fx st p c key ttl now,
   end.
 Proof. exact composed_answer_lemma. Qed.
 Print Assumptions composed_answer_inherits_target_leg.
+
+(* The cache layer's alias chase as a whole (Cache.additionalAnswer, model [chase]): tree p issues one sub-query
+   per iteration, each under its own forked tree, and inherits a sub-query's cut where its records, its NXDOMAIN
+   or its NODATA proof become part of the composed reply.  Whatever the replies' shapes, however many iterations:
+   what p admits afterwards carries the lineage and ends within the cut of p itself and of EVERY sub-query the loop
+   issued that handed anything up ... *)
+Theorem chased_answer_inherits_every_contributing_hop : forall fx depth p hops st key ttl now,
+  (forall h', In h' hops -> h_tree h' <> p) ->
+  match st_ans (step fx (AStore p key ttl now) (chase fx depth p hops st)) with
+  | e :: _ =>
+      (incl (mt_lin (st_meta st p)) (ae_lin e) /\ forall v, cut_time (mt_cut (st_meta st p)) = Some v -> ae_end e <= v) /\
+      (forall h, In h (chase_used depth hops) -> chase_inherits h = true ->
+         incl (mt_lin (st_meta st (h_tree h))) (ae_lin e) /\
+         forall v, cut_time (mt_cut (st_meta st (h_tree h))) = Some v -> ae_end e <= v)
+  | [] => False
+  end.
+Proof. exact chase_admission_lemma. Qed.
+Print Assumptions chased_answer_inherits_every_contributing_hop.
+
+(* ... and a sub-query that is not inherited handed nothing up: it failed, or its reply had no answer or authority
+   record, no NXDOMAIN and no NODATA proof - the composed reply then holds the alias records it already had, which are
+   chased again on every hit.  (Seeded change C08-12 drops the inherit of the NXDOMAIN branch: a record-less
+   NXDOMAIN then hands its rcode up without its cut.) *)
+Theorem unfolded_hop_hands_nothing_up : forall h, chase_inherits h = false ->
+  h_err h = true \/ (h_records h = false /\ h_nx h = false /\ h_proof h = false).
+Proof. exact unfolded_hop_lemma. Qed.
+Print Assumptions unfolded_hop_hands_nothing_up.
+
+(* Alias chains nest: the sub-query for an alias target is a full resolution whose own reply may be composed from a
+   further alias leg, and so on ([fold_chain]: innermost fold first).  What the outermost tree admits carries the
+   lineage and ends within the cut of EVERY leg of the chain - with [learned_through_dies_with_lease]: a reply
+   composed along a chain of aliases dies with the first lease to end among all the delegations any leg went
+   through.  [ex_alias_chain]: 12 h / 1 h / 30 s zones, one-hour denial at the end: all three entries end at 30 s. *)
+Theorem alias_chain_inherits_every_leg : forall fx p rest st key ttl now, NoDup (p :: rest) ->
+  match st_ans (step fx (AStore p key ttl now) (run fx (fold_chain p rest) st)) with
+  | e :: _ =>
+      forall t, In t (p :: rest) ->
+        incl (mt_lin (st_meta st t)) (ae_lin e) /\
+        forall v, cut_time (mt_cut (st_meta st t)) = Some v -> ae_end e <= v
+  | [] => False
+  end.
+Proof. exact alias_chain_lemma. Qed.
+Print Assumptions alias_chain_inherits_every_leg.
 
 (* an entry is served exactly until min(stored + ttl, cut); the floor never beats the cut *)
 Theorem entry_served_until_end : forall e now, ae_served e now = true <-> now < ae_end e.
